@@ -825,6 +825,33 @@ def governing_config(ck, rule):
     ck.note("one-operand wrapper builds results with the default configuration (its `config` local is unused) - outside C08's operators")
 
 
+def template_sizes(ck, rule):
+    """C08.R3b: with out_like= (and no out) the template alone decides signedness and sizes: both wrappers call the constructor with
+    signed / n_int / n_frac / n_word all None on that path (an operand-derived signedness would override the template's)."""
+    prog = ck.prog
+    for w in A.wrappers(prog):
+        n = 0
+        for pf in fpaths(prog, w):
+            if pf.end != "return" or pf.ret is None:
+                continue
+            r = peel(pf.ret)[0]
+            if not (isinstance(r, ast.Call) and prog.is_fxp_ctor(w, r)):
+                continue
+            raw_guards = [(g[2] if g[2] is not None else g[0], g[1]) for g in pf.guards]
+            if none_state(raw_guards, "out_like") is not False:
+                continue
+            n += 1
+            imposed = []
+            for k_ in ("signed", "n_word", "n_int", "n_frac"):
+                v = kw(r, k_)
+                if v is not None and not (isinstance(v, ast.Constant) and v.value is None):
+                    imposed.append("%s=%s" % (k_, src(v)[:40]))
+            ck.check(not imposed, rule, w, "with out_like= the result takes signedness and sizes from the template only", "constructor also receives %s" % ", ".join(imposed), pf.ret_stmt,
+                     "two unsigned operands with a signed template give an unsigned result: negative results saturate at 0")
+        if n == 0:
+            ck.bad(rule, w, "%s has an out_like path that builds the result from the template" % w.name, "no constructor call on an out_like path", w.node)
+
+
 def arg_forwarding(ck, rule):
     """C15.R1 (argument part): the numpy-style arguments of each function reach the computation unchanged: on every path to the wrapper
     call the entry kwargs[<name>] (assignment, kwargs.update(name=...)) or the keyword passed to the wrapper is the parameter itself."""
